@@ -312,6 +312,7 @@ type Src struct {
 	TearAt    []uint64
 	Emitted   int
 	AfterTear int // notifications the harness pushed while nobody was subscribed
+	MaxOpen   int // pushed sources: max number of subscriptions open at once (a closed subscription whose teardown is still pending does not count)
 }
 
 func NewSrc(name string) *Src { return &Src{Name: name} }
@@ -429,6 +430,19 @@ type pushDst struct {
 
 //go:norace
 func (p *pushCore) add(ctx context.Context, d interface{}) int {
+	// subscriptions that are still open (neither torn down nor already closed and about to be torn down)
+	open := 1
+	for _, x := range p.dsts {
+		if x.live {
+			if c, ok := x.d.(interface{ IsClosed() bool }); ok && c.IsClosed() {
+				continue
+			}
+			open++
+		}
+	}
+	if open > p.s.MaxOpen {
+		p.s.MaxOpen = open
+	}
 	p.dsts = append(p.dsts, pushDst{d: d, ctx: ctx, live: true})
 	return len(p.dsts) - 1
 }
